@@ -32,6 +32,10 @@ structure Oracles where
   ip   : Bytes → Bool        -- net.ParseIP(v) != nil
   uri  : Bytes → Bool        -- whatwg url parser accepts v
   http : Bool → Bytes → Bool -- http.ReadResponse (true) / http.ReadRequest (false) accepts the head
+  /-- the gzip codec at a stream offset: `none` = no verdict supplied; `some (.inl tag)` = the member header is rejected;
+      `some (.inr (content, bad, consumed))` = decompressed bytes of this member, whether the member then ends in an error
+      (truncated / corrupt) instead of cleanly, and the number of compressed bytes up to the end of the member -/
+  gz   : Nat → Option (Sum Tag (Bytes × Bool × Nat)) := fun _ => none
 
 /-- state threaded through validation: the header (repairs rewrite it) and the findings -/
 structure St where
@@ -373,7 +377,15 @@ def unmarshalBody (o : Opts) (Ω : Oracles) (s : Stream) (verLine : Bytes) : M (
       let r ← mk b
       pure (some r, after.drop consumed)
 
-/-- Unmarshal on a plain (uncompressed) stream -/
+/-- the part of Unmarshal after the five magic bytes `WARC/` were read from `r` (the plain stream or a gzip member) -/
+def unmarshalAfterMagic (o : Opts) (Ω : Oracles) (off : Nat) (fnd0 : List Tag) (after : Stream) : URes :=
+  if !(readBytesNL after.rest).2.2 then ⟨none, off, fnd0, some (endTag after.fault), []⟩
+  else
+    match unmarshalBody H o Ω ⟨(readBytesNL after.rest).2.1, after.fault⟩ (readBytesNL after.rest).1 ⟨[], fnd0⟩ with
+    | (.ok (r, rest), st) => ⟨r, off, st.fnd, none, rest⟩
+    | (.error t, st) => ⟨none, off, st.fnd, some t, []⟩
+
+/-- Unmarshal -/
 def unmarshal (o : Opts) (Ω : Oracles) (s : Stream) : URes :=
   match skipJunk (s.rest.length + 1) s.rest 0 with
   | .inl off =>
@@ -382,15 +394,22 @@ def unmarshal (o : Opts) (Ω : Oracles) (s : Stream) : URes :=
     else ⟨none, off, [], some (endTag s.fault), []⟩
   | .inr (off, atMagic) =>
     if o.syn == .fail && off > 0 then ⟨none, 0, [], some .synStart, s.rest⟩
-    else if atMagic.take 2 == [0x1f, 0x8b] then ⟨none, off, [], some .other, atMagic⟩       -- gzip: handled by the file-level model
     else
       let fnd0 : List Tag := if o.syn != .ignore && off != 0 then [.synJunk] else []
-      let afterMagic := atMagic.drop 5
-      if !(readBytesNL afterMagic).2.2 then ⟨none, off, fnd0, some (endTag s.fault), []⟩
-      else
-        match unmarshalBody H o Ω ⟨(readBytesNL afterMagic).2.1, s.fault⟩ (readBytesNL afterMagic).1 ⟨[], fnd0⟩ with
-        | (.ok (r, rest), st) => ⟨r, off, st.fnd, none, rest⟩
-        | (.error t, st) => ⟨none, off, st.fnd, some t, []⟩
+      if atMagic.take 2 == [0x1f, 0x8b] then
+        -- one gzip member per record: the record is read from the decompressed member, the rest of the member is drained
+        match Ω.gz off with
+        | none => ⟨none, off, fnd0, some .other, []⟩
+        | some (.inl t) => ⟨none, off, fnd0, some t, []⟩
+        | some (.inr (content, bad, consumed)) =>
+          if content.length < 5 then ⟨none, off, fnd0, some (if content.isEmpty && !bad then .eof else .reader), []⟩
+          else if content.take 5 != bs "WARC/" then ⟨none, off, fnd0, some .versionMissing, []⟩
+          else
+            let r := unmarshalAfterMagic H o Ω off fnd0 ⟨content.drop 5, bad⟩
+            match r.err with
+            | some _ => r
+            | none => if bad then { r with err := some .reader } else { r with rest := atMagic.drop consumed }
+      else unmarshalAfterMagic H o Ω off fnd0 ⟨atMagic.drop 5, s.fault⟩
 
 /-! ### builder -/
 
